@@ -453,6 +453,7 @@ class Func:
         self.module = None
         self.line = None
         self.defs = {}        # reg name -> Insn
+        self.param_attrs = []  # per param: set of attribute words (byval, sret, ...)
         self.noreturn = False
 
     def __repr__(self):
@@ -750,13 +751,16 @@ def _parse_define(m, s):
             f.params.append((('vararg',), '...'))
             break
         ty = p.type()
+        a0 = p.i
         _skip_arg_attrs(p)
+        attrs = {v for k, v in p.t[a0:p.i] if k == 'word'}
         k, v = p.peek()
         if k == 'loc':
             p.next()
             f.params.append((ty, unq(v)))
         else:
             f.params.append((ty, str(idx)))
+        f.param_attrs.append(attrs)
         idx += 1
         p.accept(',')
     mm = re.search(r'!dbg (![0-9]+)', tail)
